@@ -5,11 +5,11 @@
 //! ant-bootstrap returns a frozen, harness-controlled second count (`tick d` advances it); no source change.
 //!
 //! Line protocol (inputs only + eviction choice witness `e:`; see lean/SafeNet/Driver/BootCache.lean):
-//!   cfg P A E N | tick d | add s ma e | upd s ma b | clean s e | flush s b e | write s | load e |
+//!   cfg P A E N | mk s mode | tick d | add s ma e | upd s ma b | clean s e | flush s b e | write s | load e |
 //!   lupd ma b e | file cache | corrupt k | craft ma | race seed writers iters
 //! Outputs: `m=<cache> n=<peers>` (store memory), `f=<cache>|absent|garbage` (raw file, parsed by this
 //! harness's own JSON reader), `ok <cache>`/`err` (load_cache_data), `some <ma>`/`none`, `race ok`.
-use ant_bootstrap::{craft_valid_multiaddr, BootstrapCacheConfig, BootstrapCacheStore};
+use ant_bootstrap::{craft_valid_multiaddr, BootstrapCacheConfig, BootstrapCacheStore, PeersArgs};
 use common::{Out, Rng};
 use libp2p::{multiaddr::Protocol, Multiaddr, PeerId};
 use std::collections::{BTreeMap, BTreeSet};
@@ -291,6 +291,12 @@ struct Case {
     now: u64,
     path: PathBuf,
     stores: Vec<BootstrapCacheStore>,
+    /// per store: built with `local` (cache writing disabled)
+    disabled: Vec<bool>,
+    /// the directory holding the shared cache file (what `bootstrap_cache_dir` is set to)
+    dir: PathBuf,
+    /// a cache file elsewhere that the configs of `new_from_peers_args` stores point to and that nobody may touch
+    decoy: PathBuf,
     /// a crafted file with non-dialable content entered the system: the well-formedness clause has no hypothesis
     tainted: bool,
     /// a crafted file with equal per-peer timestamps is in play (eviction ties)
@@ -306,6 +312,13 @@ impl Case {
             .with_max_peers(self.max_peers)
             .with_addrs_per_peer(self.max_addrs)
             .with_addr_expiry_duration(Duration::from_secs(self.expiry))
+    }
+    fn sentinel(&self) -> String {
+        cache_to_json(&parse_cache("9=i4:9,u:9,q,p:9;7;0;1000000").unwrap(), T0)
+    }
+    fn write_decoy(&self) {
+        std::fs::create_dir_all(self.decoy.parent().unwrap()).expect("decoy dir");
+        std::fs::write(&self.decoy, self.sentinel()).expect("decoy");
     }
     fn mem(&self, i: usize) -> Cache {
         let mut c = Cache::new();
@@ -514,8 +527,52 @@ fn exec(case: &mut Case, dir: &PathBuf, line: &str, out: &mut Out) -> (String, S
                 case.ties = false;
                 case.used_odd.clear();
                 case.history = vec![full.clone()];
+                case.write_decoy();
                 case.stores = (0..n).map(|_| BootstrapCacheStore::new(case.cfg()).expect("store")).collect();
+                case.disabled = vec![false; n];
                 "ok".into()
+            }
+            ["mk", s, mode] => {
+                // rebuild store s: `n` = new(config); otherwise new_from_peers_args with the flags of `mode`
+                // (d = bootstrap_cache_dir override while the config's own path points at the decoy file,
+                //  c = no override, f = first, l = local, i = ignore_cache)
+                let i: usize = s.parse().unwrap();
+                let has = |c: char| mode.contains(c);
+                let store = if has('n') {
+                    BootstrapCacheStore::new(case.cfg()).expect("store")
+                } else {
+                    let args = PeersArgs {
+                        first: has('f'),
+                        local: has('l'),
+                        ignore_cache: has('i'),
+                        bootstrap_cache_dir: if has('d') { Some(case.dir.clone()) } else { None },
+                        ..Default::default()
+                    };
+                    let config = if has('d') { case.cfg().with_cache_path(&case.decoy) } else { case.cfg() };
+                    BootstrapCacheStore::new_from_peers_args(&args, Some(config)).expect("store from peers args")
+                };
+                let want_disabled = !has('n') && has('l');
+                let loc_ok = store.config().cache_file_path == case.path;
+                let dis_ok = store.config().disable_cache_writing == want_disabled;
+                case.stores[i] = store;
+                case.disabled[i] = want_disabled;
+                let first = !has('n') && has('f');
+                let raw = read_raw(&case.path);
+                let shown = raw.show();
+                let sh2 = shown.clone();
+                orc_jobs.push(Box::new(move |o, _| {
+                    if !loc_ok {
+                        o.fail("store-location", "the store's configured cache path is not the one bootstrap_cache_dir selects".into());
+                    }
+                    if !dis_ok {
+                        o.fail("store-location", "disable_cache_writing does not follow PeersArgs::local".into());
+                    }
+                    if first && sh2 != "-" {
+                        o.fail("first-clears", format!("a `first` store must start from an empty cache file, found {sh2}"));
+                    }
+                }));
+                out.count(&format!("mk:{mode}"));
+                format!("m={} n={} f={shown}", show_cache(&case.mem(i)), case.stores[i].peer_count())
             }
             ["tick", d] => {
                 case.now += d.parse::<u64>().unwrap();
@@ -608,9 +665,40 @@ fn exec(case: &mut Case, dir: &PathBuf, line: &str, out: &mut Out) -> (String, S
                 full = format!("{full} {} h:{}", show_choice(&ev), fnv64(&outl));
                 let ok = r.is_ok();
                 let ties = case.ties;
+                let disabled = case.disabled[i];
+                let mem_after = case.mem(i);
+                let before_shown = raw_before.show();
                 orc_jobs.push(Box::new(move |o, c| {
                     if !ok {
                         o.fail("flush-ok", "sync_and_flush_to_disk returned an error".into());
+                    }
+                    if disabled {
+                        // cache writing disabled: nothing is read, written or dropped
+                        if raw_after.show() != before_shown || mem_after != mem_before {
+                            o.fail("disabled-flush-noop", "a store with cache writing disabled changed the file or its memory in a flush".into());
+                        }
+                        return;
+                    }
+                    // what was flushed can be loaded back from the store's configured location: an address known
+                    // only to the memory, fresh and reliable, with no pressure on either limit, must be in the file
+                    if let RawFile::Data(after) = &raw_after {
+                        let fb = match &raw_before {
+                            RawFile::Data(d) => d.clone(),
+                            _ => Cache::new(),
+                        };
+                        let all_peers: BTreeSet<u64> = keyset(&mem_before).union(&keyset(&fb)).cloned().collect();
+                        for (p, l) in &mem_before {
+                            let n_addrs = l.len() + fb.get(p).map(|x| x.len()).unwrap_or(0);
+                            for a in l {
+                                let in_file = fb.get(p).map(|x| x.iter().any(|y| y.ma == a.ma)).unwrap_or(false);
+                                let fresh = a.fail <= a.succ && a.seen <= c.now && c.now - a.seen < c.expiry;
+                                if !in_file && fresh && all_peers.len() <= c.max_peers && n_addrs <= c.max_addrs
+                                    && !after.get(p).map(|x| x.contains(a)).unwrap_or(false)
+                                {
+                                    o.fail("flush-persisted", format!("peer {p} address {} was flushed (fresh, reliable, within limits) but is not in the file at the store's configured location", a.ma));
+                                }
+                            }
+                        }
                     }
                     let after = match &raw_after {
                         RawFile::Data(d) => d.clone(),
@@ -874,6 +962,10 @@ fn exec(case: &mut Case, dir: &PathBuf, line: &str, out: &mut Out) -> (String, S
             o.bounds(&format!("memory of store {i}"), &m, n, case);
             o.wellformed(&format!("memory of store {i}"), &m, case);
         }
+        if std::fs::read_to_string(&case.decoy).ok() != Some(case.sentinel()) {
+            o.fail("foreign-file-untouched", "a cache file outside the store's configured location was created, changed or removed".into());
+            case.write_decoy();
+        }
         let raw = read_raw(&case.path);
         let loaded = catch_unwind(AssertUnwindSafe(|| case.load()));
         match loaded {
@@ -1063,6 +1155,12 @@ fn gen_case(rng: &mut Rng, case: &mut Case, dir: &PathBuf, out: &mut Out, budget
         }
         return;
     }
+    for st in 0..n {
+        if rng.chance(1, 3) {
+            let mode = *rng.pick(&["d", "d", "d", "df", "dl", "di", "c", "cf", "dfl", "n"]);
+            run(case, format!("mk {st} {mode}"), out, budget);
+        }
+    }
     let len = rng.range(6, 30);
     let mut last_write_corrupt = false;
     for _ in 0..len {
@@ -1110,7 +1208,11 @@ fn gen_case(rng: &mut Rng, case: &mut Case, dir: &PathBuf, out: &mut Out, budget
                 last_write_corrupt = true;
             }
             90..=92 => run(case, format!("lupd {} {}", { let q = rng.below(peers); canonical_ma(rng, q) }, rng.below(2)), out, budget),
-            93..=96 => run(case, format!("tick {}", 2 * *rng.pick(&[1u64, e / 2, e / 2 + 1, e])), out, budget),
+            93..=95 => run(case, format!("tick {}", 2 * *rng.pick(&[1u64, e / 2, e / 2 + 1, e])), out, budget),
+            96 => {
+                let mode = *rng.pick(&["d", "df", "dl", "c", "n", "di"]);
+                run(case, format!("mk {s} {mode}"), out, budget);
+            }
             _ => run(case, format!("craft {}", if rng.chance(1, 2) { gen_garbage_ma(rng) } else { gen_ma(rng, peers) }), out, budget),
         }
     }
@@ -1137,14 +1239,18 @@ fn main() {
         max_addrs: 6,
         expiry: 86400,
         now: T0,
-        path: dir.join("cache.json"),
+        path: dir.join(ant_bootstrap::config::cache_file_name()),
         stores: vec![],
+        disabled: vec![false],
+        dir: dir.clone(),
+        decoy: dir.join("elsewhere").join("decoy_cache.json"),
         tainted: false,
         ties: false,
         history: vec![],
         used_odd: BTreeSet::new(),
     };
     set_now(T0);
+    case.write_decoy();
     case.stores = vec![BootstrapCacheStore::new(case.cfg()).expect("store")];
     if let Some(p) = &args.replay {
         for l in common::read_lines(p) {
@@ -1166,6 +1272,10 @@ fn main() {
             // the implementation may drop either one before the merge; both outcomes are legal (found by thorough seed 1)
             "cfg 1 6 20 1", "tick 2", "add 0 i4:0,t:1,w,p:5", "file 0=i4:0,t:1,p:0;5;4;1000001|5=i4:1,t:1,p:5;7;7;1000001", "flush 0 1", "load",
             "cfg 1 6 20 1", "tick 2", "add 0 i4:0,t:1,w,p:5", "file 0=i4:0,t:1,p:0;5;4;1000001|5=i4:1,t:1,p:5;7;7;1000001", "flush 0 0", "load",
+            // stores built through new_from_peers_args: bootstrap_cache_dir wins over the config's own path for load,
+            // merge AND write (seeded change m2 wrote to the stale path); `first` clears the file; `local` disables flushes
+            "cfg 3 3 100 3", "mk 0 d", "tick 2", "add 0 i4:1,u:1,q,p:1", "flush 0 1", "load", "tick 2", "add 1 i4:1,u:1,q,p:2", "flush 1 0", "load",
+            "mk 2 dl", "tick 2", "add 2 i4:1,u:1,q,p:3", "flush 2 1", "write 2", "load", "mk 1 df", "load", "mk 0 c", "tick 2", "add 0 i4:0,t:1,p:4", "flush 0 0", "load",
             "cfg 50 6 86400 3", "race 1 3 40",
         ];
         let mut budget = args.n as i64;
